@@ -482,6 +482,8 @@ def explore_frange(cfg: dict, replay_inputs=None) -> dict:
         tol = src.f('tol')
         min_iter = src.i('min_iter') if cfg['min_iter'] == 'sym' else cfg['min_iter']
         kw = dict(min_iter=min_iter, max_iter=B, tol=tol, errors=cfg['errors'], failures=cfg['failures'])
+        if cfg.get('offset'):
+            kw['offset'] = cfg['offset']      # a non-zero offset (concrete): may point before / beyond the span for some periods
         rng = {}
         if cfg['start'] is not None:
             rng['start'] = span[cfg['start']]
@@ -616,6 +618,14 @@ def frange_configs(tier: str) -> List[dict]:
         # the same on a span whose labels straddle zero (-1, 0, 1): explicit bounds that are falsy labels
         out.append(dict(part='frange', prog='feedback', B=1, n_periods=3, errors='raise', failures='ignore', start=start, end=end, min_iter=0, twin=None,
                         origin=-1))
+    # a non-zero offset: in span for some periods of the range, before / beyond the span for others (every error policy:
+    # a period whose offset cannot be served raises IndexError and nothing after it may have been touched)
+    for prog in ('feedback', 'laglead'):
+        for off in (-1, 1):
+            for errors, failures in (('raise', 'ignore'), ('skip', 'ignore'), ('ignore', 'ignore'), ('replace', 'raise')):
+                for n_periods in (2, 3):
+                    out.append(dict(part='frange', prog=prog, B=1, n_periods=n_periods, errors=errors, failures=failures, start=None, end=None,
+                                    min_iter=0, twin=None, offset=off))
     # the instance's `check` list reassigned (a subset / another order of the class default)
     for prog, ic in (('slowlast', [0]), ('slowlast', [1]), ('slowfirst', [1]), ('pair', [1, 0])):
         for B in (1, 2):
